@@ -89,6 +89,9 @@ def gen_list(rng):
     return ", ".join(parts) + ("," if rng.chance(1, 4) else "")
 
 
+KEYWORD_EXPRS = {"break", "continue", "return"}   # complete expressions that `Ident::parse_any` also reads as an identifier
+
+
 def norm_args(fields_args):
     """`alias US expr US ident RS ...` -> list of (alias, ws-free expr, ident)."""
     out = []
@@ -96,7 +99,8 @@ def norm_args(fields_args):
         return out
     for ent in fields_args.split("\x1e"):
         al, ex, idn = (ent.split("\x1f") + ["", "", ""])[:3]
-        out.append((al, G.strip_ws(ex), idn))
+        ex = G.strip_ws(ex)
+        out.append((al, ex, "" if ex in KEYWORD_EXPRS else idn))
     return out
 
 
@@ -262,7 +266,8 @@ def run(tier):
                 unexplained.append(r)
         what = {"bitor": "a binary `|` at the top level of an argument is taken for a closure parameter list (`a | b, c | d` is one argument)",
                 "cast_generic": "the generic argument list of a cast's type is split at its commas (`x as M<K, V>`)",
-                "arrow_in_generics": "`->` inside a generic argument list counts as a closing `>` (`f::<fn(A) -> B, C>(x)`)"}
+                "arrow_in_generics": "`->` inside a generic argument list counts as a closing `>` (`f::<fn(A) -> B, C>(x)`)",
+                "gt_then_global_path": "a `<` comparison in one argument and `> ::path` in a later one are paired as `<..>::` generic brackets (`a < b, c > ::d` is one argument)"}
         for f, example in explained.items():
             res.violation("construct:" + f, what.get(f, f) + f"; e.g. `{example}`", {"cmd": "split", "source": example, "construct": f})
         shapes = {}
